@@ -170,8 +170,9 @@ Loc(tt, bb) ==
   ELSE IF t.x2 = b.x1 THEN (IF b.y1 >= t.y1 /\ b.y2 <= t.y2 THEN "E" ELSE "no")
   ELSE IF t.x1 = b.x2 THEN (IF b.y1 >= t.y1 /\ b.y2 <= t.y2 THEN "W" ELSE "no")
   ELSE "no"
-\* rs[i] can be the trunk (`r == trunk` skips rectangles equal to it: same place, size and region)
-ValidTrunk(rs, i) == \A j \in DOMAIN rs : rs[j] = rs[i] \/ Loc(rs[i], rs[j]) # "no"
+\* rs[i] can be the trunk: every OTHER rectangle of the list, by position, is a branch of it (a copy of the
+\* trunk is another rectangle and overlaps it -- the definition property C06 fixes)
+ValidTrunk(rs, i) == \A j \in DOMAIN rs : j = i \/ Loc(rs[i], rs[j]) # "no"
 \* the candidate loop of create_stog: scan in list order, stop at the first rectangle that is not
 \* larger than the best trunk found so far
 RECURSIVE BestTrunk(_, _, _)
